@@ -3208,3 +3208,61 @@ C06_HOLDER_LOAD = dict(
            ("cls(__n)", "!src_holder_init ph_blank {n}", _PH, {"n": "Z"})],
 )
 ALL += [C06_HOLDER_INIT, C06_HOLDER_GET_SCORE, C06_HOLDER_SAVE, C06_HOLDER_LOAD]
+
+# ---- C20: models/main.py correlation_matrix, and predict_viability_avg once more with NaN as a VALUE (vocabulary: last part
+# of Model/Corr.v; proofs Proofs/C20SourceCorr.v).  A float is `nq` = option Qc (None = NaN); every numpy operator is lifted
+# (a NaN operand gives NaN); x / 0 with x != 0 (inf) is the unmodelled tag 96.  2-d arrays are lists of rows (`list nvec`),
+# a keepdims row is `nvec`, a keepdims column `ncol`.  The screen is (tm, sm, arity) as in C20_SPACE plus `rows` = the
+# (sample id, sample name key) pairs of its experiments; the thetas are the function f (theta index, sample id, treatment
+# ids) -> prediction of the model (Corr.v Section Corr), nthetas their number.
+_NV, _NM = "nvec", "list nvec"
+C20_PREDICT_AVG_NAN = dict(
+    file="src/batchie/models/main.py", func="predict_viability_avg", out="SrcCorr.v", overload=True,
+    imports="Lib.Num Model.Metrics Model.Synergy Model.Corr Generated.SrcSpace",
+    name="src_predict_viability_avg_nan", pyparams=["screen", "thetas"], params=[("size", "nat"), ("per_theta", "list theta_n")],
+    returns=_NV, vars={"result": _NV, "theta_index": "Z", "theta": "theta_n", "sub_result": _NV},
+    prims=[
+        ("screen.size", "Z.of_nat size", "Z"),
+        ("np.zeros((__n,), dtype=FloatingPointType)", "nv_zeros {n}", _NV, {"n": "Z"}),
+        ("thetas.n_thetas", "Z.of_nat (length per_theta)", "Z"),
+        ("thetas.get_theta(__i)", "!list_get per_theta {i}", "theta_n", {"i": "Z"}),       # the i-th theta (C10: get_theta)
+        ("__t.predict_viability(screen)", "{t}", _NV, {"t": "theta_n"}),
+        ("np.isnan(__x)", "nv_isnan {x}", _BS, {"x": _NV}),
+        ("__m.any()", "np_any1 {m}", "bool", {"m": _BS}),
+        ("__a + __b", "!nv_add {a} {b}", _NV, {"a": _NV, "b": _NV}),
+        ("__v / __n", "!nv_div_int {v} {n}", _NV, {"v": _NV, "n": "Z"}),
+    ],
+    raises=[("NaN predictions were created", 1)],
+)
+C20_CORR = dict(
+    file="src/batchie/models/main.py", func="correlation_matrix", out="SrcCorr.v", overload=True,
+    imports="Lib.Num Model.Metrics Model.Synergy Model.Corr Generated.SrcSpace",
+    name="src_correlation_matrix", pyparams=["screen", "thetas"],
+    params=[("orc", "oracle"), ("f", "nat -> Z -> list Z -> Qcanon.Qc"), ("tm", "tmap3"), ("sm", _PAIRS), ("arity", "nat"),
+            ("nthetas", "nat"), ("rows", _PAIRS)],
+    returns="corr_frame",
+    vars={"predictions": _NM, "index": _ZS, "id_to_name": "dict", "sample_id": "Z", "combinatoric_space": "(list Z * list list Z)",
+          "mu": _NV, "X": _NM, "X_": _NM, "corr": _NM},
+    prims=[
+        ("screen.sample_ids", "map fst rows", _ZS), ("screen.sample_names", "map snd rows", _ZS),
+        ("screen.unique_sample_ids", "sorted_unique (map fst rows)", _ZS),          # np.unique(self.sample_ids)
+        ("zip(__a, __b)", "combine {a} {b}", _PAIRS, {"a": _ZS, "b": _ZS}),
+        ("dict(__p)", "dict_of_pairs {p}", "dict", {"p": _PAIRS}),
+        ("__d[__k]", "!dict_read {d} {k}", "Z", {"d": "dict", "k": "Z"}),
+        # the callees run their translations; Screen.size of the space = the number of its sample ids
+        ("generate_full_combinatoric_space(__s, screen)", "!src_generate_full_combinatoric_space tm sm arity {s}",
+         "(list Z * list list Z)", {"s": "Z"}),
+        ("predict_viability_avg(__s, thetas)", "!src_predict_viability_avg_nan (length (fst {s})) (thetas_on f nthetas {s})", _NV,
+         {"s": "(list Z * list list Z)"}),
+        ("np.stack(__l)", "!nm_stack {l}", _NM, {"l": _NM}),
+        ("np.mean(__p, axis=0, keepdims=True)", "!nm_mean0 {p}", _NV, {"p": _NM}),
+        ("__p - __m", "!nm_sub_row {p} {m}", _NM, {"p": _NM, "m": _NV}),
+        ("np.square(__x)", "nm_square {x}", _NM, {"x": _NM}),
+        ("np.sum(__x, axis=1, keepdims=True)", "nm_sum1 {x}", "ncol", {"x": _NM}),
+        ("np.sqrt(__c)", "nc_sqrt orc {c}", "ncol", {"c": "ncol"}),
+        ("__x / __c", "!nm_div_col {x} {c}", _NM, {"x": _NM, "c": "ncol"}),
+        ("np.einsum('ik, jk->ij', __a, __b)", "!nm_einsum_ik_jk {a} {b}", _NM, {"a": _NM, "b": _NM}),
+        ("pandas.DataFrame(__c, index=__i, columns=__j)", "mk_frame {c} {i} {j}", "corr_frame", {"c": _NM, "i": _ZS, "j": _ZS}),
+    ],
+)
+ALL += [C20_PREDICT_AVG_NAN, C20_CORR]
